@@ -14,7 +14,7 @@ statement of another shape.  This file holds, hand written:
 
 `Props/C19Gen.lean` proves that the interpreters map `Steps.*` to the model functions (`ArrayBuilder.to…S`,
 `Deserializer.from…`) for every core and conversion, and — by `decide` — that the regenerated lists ARE `Steps.*`, that
-the finishers take `&mut self`, and that the only mention of `self.schema` in the adapter files is the shared borrow in
+the finishers take `&mut self`, and that the only mention of `self.schema` in the adapter files and in `internal/array_builder.rs` is the shared borrow in
 `to_record_batch`.  A body that moves the schema out of the builder, drops the count check of a reader or walks
 `fields.iter().zip(arrays)` is either refused by the translator or breaks a `decide`, before any case runs.
 -/
@@ -192,7 +192,8 @@ def fieldsFromFieldRefs : List RStep := [.fieldsEach]
 def finisherReceivers : List (String × String) :=
   [("to_marrow", "&mut self"), ("to_arrow", "&mut self"), ("to_record_batch", "&mut self"), ("to_arrow2", "&mut self")]
 
-/-- every mention of `self.schema` in the three adapter files: (file, function, how it is used) -/
+/-- every mention of `self.schema` in the three adapter files and in `internal/array_builder.rs` (where the field is
+only initialised, in `new`): (file, function, how it is used) -/
 def selfSchemaUses : List (String × String × String) := [("arrow_impl.rs", "to_record_batch", "&self.schema")]
 
 end Steps
